@@ -25,15 +25,15 @@ def make_obs(ctx):
                 obs.append(Ob('dconv:%s->%s:%d-%d' % (s, t, lo, hi), H, 'h_dconv',
                               dict(d, SRC=REPS[s], TGT=REPS[t]), units=UNITS, bounds=b,
                               group='dconv:%s->%s' % (s, t),
-                              kf=['daisy_tail'] if s in DAYNUM and t not in DAYNUM else []))
+                              kf=['daisy_tail'] if s in DAYNUM and t not in DAYNUM and hi >= 4094 else []))
             if s in ('ymd', 'ymcw', 'ywd', 'yd', 'daisy'):
                 obs.append(Ob('kernels:%s:%d-%d' % (s, lo, hi), H, 'h_kernels',
                               dict(d, SRC=REPS[s]), units=UNITS, bounds=b,
-                              group='kernels:%s' % s, kf=['daisy_tail'] if s in DAYNUM else []))
+                              group='kernels:%s' % s, kf=['daisy_tail'] if s in DAYNUM and hi >= 4094 else []))
             if s in ('ymd', 'ymcw', 'ywd', 'yd', 'daisy'):
               obs.append(Ob('getters:%s:%d-%d' % (s, lo, hi), H, 'h_getters',
                           dict(d, SRC=REPS[s]), units=UNITS, bounds=b,
-                          group='getters:%s' % s, kf=['daisy_tail'] if s in DAYNUM else []))
+                          group='getters:%s' % s, kf=['daisy_tail'] if s in DAYNUM and hi >= 4094 else []))
     return obs
 
 
